@@ -25,6 +25,7 @@ def gen(seed, idx, tier):
         refuse=0.3,
         steps=(3, 25),
         eps_kinds=("none", "none", "none", "const", "spatial"),
+        p_remesh=0.12,
     )
     return scn
 
